@@ -11,6 +11,28 @@ import (
 	"unsafe"
 )
 
+// quoteLuaString renders s as a string literal the Lua reader turns back into exactly s
+// (string.format's %q): Go's %q escapes (\x00, \u00e9, ...) are not Lua escapes.
+func quoteLuaString(s string) []byte {
+	buf := make([]byte, 0, len(s)+2)
+	buf = append(buf, '"')
+	for i := 0; i < len(s); i++ {
+		switch c := s[i]; c {
+		case '"', '\\':
+			buf = append(buf, '\\', c)
+		case '\n':
+			buf = append(buf, '\\', '\n')
+		case '\r':
+			buf = append(buf, '\\', 'r')
+		case 0:
+			buf = append(buf, '\\', '0', '0', '0')
+		default:
+			buf = append(buf, c)
+		}
+	}
+	return append(buf, '"')
+}
+
 func intMin(a, b int) int {
 	if a < b {
 		return a
